@@ -11,7 +11,7 @@
 enum {
   O_NEW, O_DEL, O_PUSH, O_POP, O_PUSH_AT, O_POP_AT, O_SET, O_GET, O_REM, O_MEM,
   O_CONCAT, O_RESIZE, O_SORT, O_ASSIGN, O_COPY, O_TWIN, O_SWAP, O_CHECK,
-  O_SASSIGN, O_SCONCAT, O_SREM, O_SMEM, O_SPRINT, O_BAD, O_BURST, O_NOPS
+  O_SASSIGN, O_SCONCAT, O_SREM, O_SMEM, O_SPRINT, O_BAD, O_BURST, O_VIEW, O_NOPS
 };
 static const OpInfo OPS[O_NOPS] = {
   [O_NEW]    = { "new", 5 },      /* kind ktype vtype managed ninit */
@@ -39,6 +39,7 @@ static const OpInfo OPS[O_NOPS] = {
   [O_SPRINT] = { "s_print", 4 },  /* c pos fmt x */
   [O_BAD]    = { "bad", 3 },      /* c kind x */
   [O_BURST]  = { "burst", 1 },    /* n */
+  [O_VIEW]   = { "view", 4 },     /* c kind a b : iterate a view of a sequence (slice / zip / enumerate / filter / map / range) */
 };
 
 enum { K_ARRAY, K_LIST, K_TUPLE, K_TABLE, K_TREE, K_STRING, K_NKINDS };
@@ -1164,6 +1165,80 @@ static void do_sprint(const Op* o) {
   check_cont(c, 1);
 }
 
+/* ---------------------------------------------------------------- views */
+static var view_even(var x) { return (c_int(x) % 2 == 0) ? x : NULL; }   /* filter / map hand the element itself to the function */
+static struct Int g_map_out;
+static var view_double(var args) { static char buf[sizeof(struct Header) + sizeof(struct Int)]; struct Int* o = header_init(buf, Int, AllocStatic); o->val = c_int(args) * 2 + 1; (void)g_map_out; return o; }
+
+/* iteration views over a sequence of integers: what they yield is emitted into the transcript (C18 compares it across build
+ * configurations) and checked against the definition computed from the model.  In-contract parameters only. */
+static void do_view(const Op* o) {
+  Cont* c = pick(o->a[0]); if (!c || !is_seq(c->kind) || !int_like(elem_et(c)) || elem_et(c) == ET_TOK) return;
+  progress(g_opidx, "C18", "view");
+  int n = c->n, kind = (int)(((o->a[1] % 6) + 6) % 6);
+  int64_t a = o->a[2], b = o->a[3];
+  int cnt = 0;
+  g_lastop = "view";
+  switch (kind) {
+    case 0: { /* slice(c, start, stop, step) with 0 <= start <= stop <= n, step >= 1 */
+      int st = n ? (int)(((a % (n + 1)) + (n + 1)) % (n + 1)) : 0, sp = n ? st + (int)(((b % (n - st + 1)) + (n - st + 1)) % (n - st + 1)) : 0, step = 1 + (int)(((a / 7 % 3) + 3) % 3);
+      int want = st;
+      foreach (x in slice(c->obj, $I(st), $I(sp), $I(step))) {
+        if (want >= sp) VIOL(c, "view-slice-too-long", "slice(%d,%d,%d) yields an item beyond stop", st, sp, step);
+        if (c_int(x) != elemv(c, want)) VIOL(c, "view-slice-mismatch", "slice(%d,%d,%d) item %d differs from get(%d)", st, sp, step, cnt, want);
+        TR("sl %lld", (long long)c_int(x)); want += step; cnt++;
+      }
+      if (want < sp) VIOL(c, "view-slice-too-short", "slice(%d,%d,%d) stopped early", st, sp, step);
+      break; }
+    case 1: { /* zip with a range: pairs up to the shorter */
+      int m = (int)(((a % 12) + 12) % 12);
+      foreach (pair in zip(c->obj, range($I(m)))) {
+        var x = get(pair, $I(0)), y = get(pair, $I(1));
+        if (cnt >= n || cnt >= m) VIOL(c, "view-zip-too-long", "zip yields more than the shorter input");
+        if (c_int(x) != elemv(c, cnt) || c_int(y) != cnt) VIOL(c, "view-zip-mismatch", "zip item %d differs", cnt);
+        TR("zp %lld %lld", (long long)c_int(x), (long long)c_int(y)); cnt++;
+      }
+      if (cnt != (n < m ? n : m)) VIOL(c, "view-zip-too-short", "zip yields %d of %d pairs", cnt, n < m ? n : m);
+      break; }
+    case 2: { /* enumerate */
+      foreach (pair in enumerate(c->obj)) {
+        if (cnt >= n) VIOL(c, "view-enumerate-too-long", "enumerate yields more than len");
+        if (c_int(get(pair, $I(0))) != cnt || c_int(get(pair, $I(1))) != elemv(c, cnt)) VIOL(c, "view-enumerate-mismatch", "enumerate item %d differs", cnt);
+        TR("en %d %lld", cnt, (long long)c_int(get(pair, $I(1)))); cnt++;
+      }
+      if (cnt != n) VIOL(c, "view-enumerate-too-short", "enumerate yields %d of %d", cnt, n);
+      break; }
+    case 3: { /* filter: the even elements, in order */
+      int want = 0;
+      foreach (x in filter(c->obj, $(Function, view_even))) {
+        while (want < n && elemv(c, want) % 2 != 0) want++;
+        if (want >= n || c_int(x) != elemv(c, want)) VIOL(c, "view-filter-mismatch", "filter item %d differs", cnt);
+        TR("fl %lld", (long long)c_int(x)); want++; cnt++;
+      }
+      while (want < n && elemv(c, want) % 2 != 0) want++;
+      if (want < n) VIOL(c, "view-filter-too-short", "filter missed an accepted element");
+      break; }
+    case 4: { /* map: images in order */
+      foreach (x in map(c->obj, $(Function, view_double))) {
+        if (cnt >= n) VIOL(c, "view-map-too-long", "map yields more than len");
+        if (c_int(x) != elemv(c, cnt) * 2 + 1) VIOL(c, "view-map-mismatch", "map item %d differs", cnt);
+        TR("mp %lld", (long long)c_int(x)); cnt++;
+      }
+      if (cnt != n) VIOL(c, "view-map-too-short", "map yields %d of %d", cnt, n);
+      break; }
+    default: { /* range(start, stop, step) with a positive step */
+      int64_t st = ((a % 20) + 20) % 20 - 5, sp = st + ((b % 25) + 25) % 25, step = 1 + ((a / 20 % 4) + 4) % 4, want = st;
+      foreach (x in range($I(st), $I(sp), $I(step))) {
+        if (want >= sp || c_int(x) != want) VIOL(c, "view-range-mismatch", "range(%lld,%lld,%lld) item %d differs", (long long)st, (long long)sp, (long long)step, cnt);
+        TR("rg %lld", (long long)c_int(x)); want += step; cnt++;
+      }
+      if (want < sp) VIOL(c, "view-range-too-short", "range stopped early");
+      break; }
+  }
+  stat_add("view.iterated", 1);
+  { static const char* vk[] = { "view.slice", "view.zip", "view.enumerate", "view.filter", "view.map", "view.range" }; stat_add(vk[kind], 1); }
+}
+
 /* ------------------------------------------------- invalid calls (C12/C19) */
 enum { X_IOOB = 1 << 4, X_KEY = 1 << 5, X_VALUE = 1 << 2, X_TYPE = 1 << 1, X_CLASS = 1 << 3,
        X_FORMAT = 1 << 8, X_RESOURCE = 1 << 10, X_NONE = 1 << 0 };
@@ -1331,6 +1406,7 @@ static void exec_op(const Op* o) {
     case O_SMEM: do_smem(o); break;
     case O_SPRINT: do_sprint(o); break;
     case O_BAD: do_bad(o); break;
+    case O_VIEW: do_view(o); break;
     case O_BURST: progress(g_opidx, "C01", "burst"); burst((int)(((o->a[0] % 64) + 64) % 64) + 2); break;
     default: break;
   }
@@ -1502,6 +1578,7 @@ static void containers_generate(Plan* p, Rng* r) {
       continue;
     }
     /* sequences: modes 0 grow, 1 shrink, 2/3 mix */
+    if ((focus == 18 || focus == 0) && d < 12) { plan_add(p, O_VIEW, 0, 0, ca, rng_below(r, 6), rv, (int64_t)rng_below(r, 1000), 0, 0); continue; }
     if (mode == 0) {
       if (d < 55) plan_add(p, O_PUSH, 0, fault, ca, rv, rng_below(r, 2), 0, 0, 0);
       else if (d < 80) plan_add(p, O_PUSH_AT, 0, fault, ca, rv, ri, 0, 0, 0);
